@@ -31,6 +31,9 @@ def prelude(extra_spec=(), stubs=True):
     parts.append("pub type AbraInt = i64;\npub type AbraFloat = f64;\ntype BytecodeIndex = u32;\n")
     for rx in REAL_TYPES:
         parts.append("// ---- real (vm.rs) ----\n" + S.item(V, rx) + "\n")
+    # every named top-level constant of vm.rs (arms may refer to them)
+    for m in re.finditer(r'^(?:pub(?:\([a-z]+\))? )?const [A-Z][A-Z0-9_]*: [^=;]+ = [^;]+;', S.read(V), re.M):
+        parts.append("// ---- real const (vm.rs) ----\n" + m.group(0) + "\n")
     sh = S.strip_cfg_items(S.item(V, r'struct VmSharedReadonly \{'), 'ffi')
     parts.append("// ---- real (vm.rs), ffi-only fields dropped ----\n" + sh + "\n")
     th = S.drop_fields(S.item(V, r'pub struct VmGreenThread \{'), ['new_threads_sender'])
@@ -92,3 +95,43 @@ def stub_contract(name):
     if not m:
         raise S.SliceError("stub contract for %s not found" % name)
     return m.group(1).rstrip() + "\n"
+
+
+def verify_isolating(build, names, scratch, fname, max_rounds=6):
+    """Run Verus on build(exclude).  When rustc/Verus rejects the FILE because of one unit function
+    (compile error, unsupported construct) no per-function result exists; the function the error
+    points into is excluded (it becomes UNDECIDED: outside the verifier's reach) and Verus is
+    re-run, so that one arm does not hide the verdicts on the others.
+    Returns (text, verus_result, excluded: {name: reason})."""
+    import engine as E
+    excluded = {}
+    while True:
+        text = build(set(excluded))
+        path = scratch.file(fname, text)
+        try:
+            res = E.run_verus(path)
+            if res['functions']:
+                return text, res, excluded
+            errs = res['errors']
+        except E.Undecided as ex:
+            errs = []
+            for b in re.split(r'\n(?=error)', str(ex)):
+                m = re.search(r'-->\s+[^:\n]+:(\d+):(\d+)', b)
+                if b.startswith('error') and m:
+                    errs.append(dict(message=b.split("\n")[0], line=int(m.group(1)), block=b[:800]))
+            if not errs:
+                raise
+        lines = E.fn_line_ranges(text)
+        blamed = None
+        for e in errs:
+            ln = e.get('line')
+            fn = lines[ln - 1] if ln and ln <= len(lines) else None
+            if fn:
+                short = fn[4:] if fn.startswith('arm_') else fn
+                if short in names and short not in excluded:
+                    blamed = (short, e['message'][:300])
+                    break
+        if not blamed or len(excluded) >= max_rounds:
+            raise E.Undecided("verus rejects the assembled file and the error cannot be attributed to one unit function:\n"
+                              + "\n".join(e['message'] for e in errs[:5]))
+        excluded[blamed[0]] = "outside the verifier's reach: " + blamed[1]
